@@ -110,3 +110,29 @@ func VerifDrainIntervalChan[M any](c Cache[M]) int {
 		}
 	}
 }
+
+type VerifEntryInfo struct {
+	Size       int64
+	LastAccess time.Time
+	Expires    time.Time
+}
+
+// VerifPeek reads the metadata of every entry without touching LastAccess.
+func VerifPeek[M any](c Cache[M]) map[string]VerifEntryInfo {
+	out := map[string]VerifEntryInfo{}
+	switch x := c.(type) {
+	case *MemoryCache[M]:
+		x.mu.RLock()
+		for k, e := range x.entries {
+			out[k.Hex] = VerifEntryInfo{e.meta.Size, e.meta.LastAccess, e.meta.Expires}
+		}
+		x.mu.RUnlock()
+	case *FileCache[M]:
+		x.mu.RLock()
+		for k, m := range x.entriesMetadata {
+			out[k.Hex] = VerifEntryInfo{m.Size, m.LastAccess, m.Expires}
+		}
+		x.mu.RUnlock()
+	}
+	return out
+}
